@@ -115,6 +115,27 @@ theorem C20_event_quiescent (fix : Bool) (c : Conn) (base : Obj) (bits : List Bo
     rw [hd] at h
     exact ⟨d, rfl, h⟩
 
+/-- **Exactly the changing updates reach the loop, in order, every schedule.**  Under the
+    hypotheses of C20_event (some connection `c` is and stays subscribed, so the topic exists
+    whenever `publish` tests it): once the worker has finished, the sequence of objects it handed
+    to the loop with `call_soon_threadsafe` is precisely the sequence of accepted updates that
+    changed the value — none lost, none duplicated, none reordered — each enqueued after its own
+    assignment (the hand-off step follows the assignment step in the worker's program). -/
+theorem C20_handoff_exact (fix : Bool) (c : Conn) (base : Obj) (bits : List Bool) (s0 : Cfg)
+    (hq : Quiet s0) (hk : s0.topicKey = true) (hc : c ∈ s0.subs)
+    (hun : ∀ op ∈ s0.lops, op ≠ LoopOp.unsub c)
+    (h0 : (latest c base s0).val = s0.value.val)
+    (hw : (run fix bits s0).wpc = .idle) (hu : (run fix bits s0).wups = []) :
+    (run fix bits s0).enq = s0.enq ++ changes s0.value s0.wups := by
+  have hinv : EvInv c base s0 := by
+    refine ⟨hk, hc, hun, by simp [hq.1], by simp [hq.1], ?_⟩
+    rw [hq.2]; exact h0
+  have h := handoff_run fix c base bits s0 hinv
+  have e1 : owed (run fix bits s0) = [] := by simp [owed, hw, hu, changes]
+  have e2 : owed s0 = changes s0.value s0.wups := by simp [owed, hq.2]
+  rw [e1, e2, List.append_nil] at h
+  exact h
+
 /-! ### The code as shipped (no re-check): the window is real -/
 
 /-- `begin; check; read value; [worker: begin, assign, clear, clear, topic test]; store cache`. -/
@@ -166,7 +187,8 @@ example : Quiet evStart ∧ Fresh evStart ∧ evStart.topicKey = true ∧ 7 ∈ 
 example :
     Quiet (run true evSchedule evStart) ∧ (run true evSchedule evStart).queue = [] ∧
     (run true evSchedule evStart).pending 7 = none ∧
-    (run true evSchedule evStart).delivered 7 = [⟨1, 21⟩] ∧ Fresh (run true evSchedule evStart) := by
+    (run true evSchedule evStart).delivered 7 = [⟨1, 21⟩] ∧ Fresh (run true evSchedule evStart) ∧
+    (run true evSchedule evStart).enq = [⟨1, 21⟩] ∧ changes evStart.value evStart.wups = [⟨1, 21⟩] := by
   decide
 
 /-- "Equal but not identical": an update with the same payload in a different object makes the
